@@ -4,8 +4,9 @@
    for EVERY graph).  Hand models of ppci/graph/cfg.py and fixed_point_dominator.py =
    Model/DomTree.v (interval numbering proved for every tree; the other models: bounded). *)
 From PV Require Import Lib.Py.
-From PV Require Import Spec.CfgSpec Model.DomRef Model.DomTree.
-From PV Require Import Proofs.C25_ref Proofs.C25_cert Proofs.C25_intervals Proofs.C25_bounded.
+From PV Require Import Spec.CfgSpec Model.DomRef Model.DomTree Model.LengauerTarjan.
+From PV Require Import Proofs.C25_ref Proofs.C25_cert Proofs.C25_intervals Proofs.C25_bounded Proofs.C25_lt.
+From PV Require Import Proofs.C25_complete Proofs.C25_compose Proofs.C25_pdom Proofs.C25_reach Proofs.C25_tree.
 Close Scope Z_scope.
 Open Scope nat_scope.
 
@@ -113,6 +114,80 @@ Theorem c25_reach_fixpoint_bounded : forall n g, 1 <= n <= 4 -> In g (all_graphs
   calculate_reach (length g * length g + 2) g = Ok (reach_rows g).
 Proof. exact reach_bounded. Qed.
 Print Assumptions c25_reach_fixpoint_bounded.
+
+
+
+(* ---- existence of immediate dominators; the checker never rejects the true map (every graph) *)
+Theorem c25_idom_exists : forall g e w, reachable g e w -> w <> e -> exists d, is_idom g e d w.
+Proof. exact idom_exists. Qed.
+Print Assumptions c25_idom_exists.
+
+Theorem c25_idom_list_total : forall g e w, reachable g e w -> w <> e ->
+  exists d, nth w (idom_list g e) None = Some d /\ is_idom g e d w.
+Proof. exact idom_list_total. Qed.
+Print Assumptions c25_idom_list_total.
+
+Theorem c25_cert_complete : forall g e, check_idom g e (idom_list g e) = true.
+Proof. exact check_idom_complete. Qed.
+Print Assumptions c25_cert_complete.
+
+Theorem c25_cert_exact : forall g e t, check_idom g e t = true ->
+  forall w, w < length g -> pget t w = nth w (idom_list g e) None.
+Proof. exact check_idom_iff_exact. Qed.
+Print Assumptions c25_cert_exact.
+
+(* ---- dominates / strictly_dominates: accepted idom map + any tree representing it + interval
+        numbering decide dominance by the path definition (every graph, every such tree) *)
+Theorem c25_dominates_by_intervals : forall g e t tr fuel,
+  check_idom g e t = true -> represents g e t tr -> 2 * size tr < fuel ->
+  exists iv, number_tree fuel tr = Ok iv /\
+    forall one other, In one (labels tr) -> In other (labels tr) ->
+      exists io i1, alookup other iv = Some io /\ alookup one iv = Some i1 /\
+        (below_or_same io i1 = true <-> dominates g e one other) /\
+        (below io i1 = true <-> sdominates g e one other).
+Proof. exact dominates_by_intervals. Qed.
+Print Assumptions c25_dominates_by_intervals.
+
+
+(* ---- the tree built from the true idom map represents it (every graph) *)
+Theorem c25_build_tree_represents : forall g e, e < length g ->
+  represents g e (idom_list g e) (build_tree (length g) (length g) (idom_list g e) e).
+Proof. exact build_tree_represents. Qed.
+Print Assumptions c25_build_tree_represents.
+
+(* ---- dominates / strictly_dominates end to end (model of _calculate_dominator_tree,
+        _number_dominator_tree and the interval tests), every graph, every accepted idom map *)
+Theorem c25_dominates_unbounded : forall g e t, e < length g -> check_idom g e t = true ->
+  exists iv, tree_intervals g e t = Ok iv /\
+    forall one other, reachable g e one -> reachable g e other ->
+      exists io i1, alookup other iv = Some io /\ alookup one iv = Some i1 /\
+        (below_or_same io i1 = true <-> dominates g e one other) /\
+        (below io i1 = true <-> sdominates g e one other).
+Proof. exact dominates_unbounded. Qed.
+Print Assumptions c25_dominates_unbounded.
+
+(* ---- fixed-point analyses, every graph (partial correctness: whenever the model terminates
+        within its fuel; termination within n*n+2 sweeps is covered by the bounded theorems) *)
+Theorem c25_pdom_fixpoint_correct : forall g x, x < length g -> succs g x = [] ->
+  forall fuel res, post_dominators fuel g x = Ok res ->
+  forall w d, w < length g ->
+    (In d (nth w res []) <-> d < length g /\ postdominates g x d w).
+Proof. exact post_dominators_correct. Qed.
+Print Assumptions c25_pdom_fixpoint_correct.
+
+Theorem c25_reach_fixpoint_correct : forall g fuel res, calculate_reach fuel g = Ok res ->
+  forall u d, u < length g -> (In d (nth u res []) <-> reachable_plus g u d).
+Proof. exact calculate_reach_correct. Qed.
+Print Assumptions c25_reach_fixpoint_correct.
+
+(* ---- Lengauer-Tarjan (model of lt.py): every graph with 1..4 nodes, entry 0, two iteration orders
+        of the successor/predecessor sets; outside the code's domain the model raises KeyError *)
+Theorem c25_lt_bounded : forall n g, 1 <= n <= 4 -> In g (all_graphs n) ->
+  lt_idom g (preds_of g) 0 = (if lt_domain g 0 then Ok (idom_list g 0) else Internal KeyError) /\
+  lt_idom (map (@rev nat) g) (map (@rev nat) (preds_of g)) 0 =
+    (if lt_domain g 0 then Ok (idom_list g 0) else Internal KeyError).
+Proof. exact lt_bounded. Qed.
+Print Assumptions c25_lt_bounded.
 
 (* hypotheses are inhabited: a diamond with a loop; its idom map passes the checker and the
    numbered tree has distinct labels *)
